@@ -42,6 +42,14 @@
 (* table -- is the same for both; each invalid setting is recorded through *)
 (* both.                                                                   *)
 (*                                                                         *)
+(* ITERATION LIMIT.  maxIter is clamped at 2^30 in the event (usize::MAX   *)
+(* is a valid "unbounded" setting but not a 32-bit integer); maxIterClass  *)
+(* = "zero" (invalid), "tiny" (1, 2: the statement promises no optimum     *)
+(* after two iterations -- only that fit returns coefficients or an error, *)
+(* never panics or hangs; the identities are still checked on what it      *)
+(* returns), "default" (1000), "huge" (10^6 .. usize::MAX: same contract   *)
+(* as the default).                                                        *)
+(*                                                                         *)
 (* Verdicts come from the operators of Lasso.tla only.                     *)
 (***************************************************************************)
 EXTENDS Lasso, TLC, Json, IOUtils
@@ -69,15 +77,21 @@ FitContract(P, o, R, G) ==
     ELSE ""
 
 FitAtScale(P, o) == LET R == LaResid(P, o.W, o.S) IN FitContract(P, o, R, LaGrad(P, R))
+\* maxIterClass = "tiny": the identities only
+TinyFitAtScale(P, o) ==
+    IF ~LaInterceptIdentity(P, o.W, o.B, o.S) THEN "InterceptIdentity"
+    ELSE IF ~LaPredictIdentity(P, o.W, o.B, o.Yhat) THEN "PredictIdentity" ELSE ""
 
 ValidFitClause(e, P) ==
     IF \E i \in 1..Len(e.q) : Len(e.q[i].W) # P.p THEN "Shape"
     ELSE LET i == PickScale(P, e.q, 1) IN
-         IF i = 0 THEN "OutOfRange" ELSE FitAtScale(P, e.q[i])
+         IF i = 0 THEN "OutOfRange"
+         ELSE IF e.maxIterClass = "tiny" THEN TinyFitAtScale(P, e.q[i]) ELSE FitAtScale(P, e.q[i])
 
 FitClause(e) ==
     IF e.est = "lasso" /\ LassoInvalid(e.X, e.ylen, e.aN, e.tolSgn, e.maxIter, e.normalize)
     THEN IF e.status = "err" THEN "" ELSE "Validation_" \o e.status
+    ELSE IF e.maxIterClass = "tiny" /\ e.status = "err" THEN ""   \* two iterations: an error is admissible
     ELSE IF e.status # "ok" THEN "Status_" \o e.status          \* a result is promised
     ELSE IF ~e.fin THEN "NotFinite"
     ELSE IF ~LaDataInRange(e.X, e.y, e.aN, e.aE, e.l1N, e.l1E) THEN "OutOfRange"
@@ -130,7 +144,8 @@ HitNames == {"Valid_lasso_raw", "Valid_lasso_std", "Valid_enet_raw", "Valid_enet
              "Pair_shift", "Pair_l1one", "OutOfRange", "Skipped",
              "ScaledDown", "ScaledUp", "Unscaled",        \* second counter: member of the scale family
              "TargetOffset", "NoTargetOffset",            \* third: target-offset family
-             "Invalid_api", "Invalid_inherent", "Valid_api", "Valid_inherent"}   \* fourth: entry point
+             "Invalid_api", "Invalid_inherent", "Valid_api", "Valid_inherent",   \* fourth: entry point
+             "MaxIter_zero", "MaxIter_tiny", "MaxIter_default", "MaxIter_huge"}  \* fifth: iteration limit
 OffsetHit(e) == IF e.yoff # 0 THEN "TargetOffset" ELSE "NoTargetOffset"
 EntryHit(e, c) == (IF e.ev = "Fit" /\ FitHit(e, c) = "Invalid" THEN "Invalid_" ELSE "Valid_") \o e.entry
 ScaleHit(e) == IF e.yexp < 0 THEN "ScaledDown" ELSE IF e.yexp > 0 THEN "ScaledUp" ELSE "Unscaled"
@@ -139,7 +154,8 @@ Judge(e, c) ==
     /\ IF c \in {"", "OutOfRange", "Skipped"} THEN nbad' = nbad
        ELSE PrintT(<<"BAD", l, e.run, e.ev, c>>) /\ nbad' = nbad + 1
     /\ hits' = [hits EXCEPT ![HitOf(e, c)] = @ + 1, ![ScaleHit(e)] = @ + 1,
-                            ![OffsetHit(e)] = @ + 1, ![EntryHit(e, c)] = @ + 1]
+                            ![OffsetHit(e)] = @ + 1, ![EntryHit(e, c)] = @ + 1,
+                            !["MaxIter_" \o (IF e.ev = "Fit" THEN e.maxIterClass ELSE "default")] = @ + 1]
 
 Step == /\ l <= Len(Rec)
         /\ Judge(Rec[l], Clause(Rec[l]))
